@@ -520,6 +520,39 @@ fn replay_earlystop_with(case: &Value, rep: &mut Report, embedding: &str, script
             }
         }
     }
+    // The stop rule reads the validation LOSS only.  Same trajectory on a network whose validation ACCURACY rises strictly
+    // from epoch to epoch (absolute-error objective, learning rate 1, one-hot inputs with targets 1..K: weight i reaches its
+    // target exactly in epoch i and stays): a loss plateau with improving accuracy is still a plateau.
+    if hasval && e >= 2 {
+        let k = e;
+        let arch2 = json!({"input": [k], "layers": [{"kind": "dense", "out": 1, "act": "linear", "bias": false}],
+                           "objective": {"kind": "ae"}, "optimizer": {"kind": "sgd", "lr": 1.0}});
+        let xs: Vec<Tensor> = (0..k).map(|i| Tensor::one_hot(i, k)).collect();
+        let ys: Vec<Tensor> = (0..k).map(|i| Tensor::single(vec![(i + 1) as f32])).collect();
+        verif::set_val_loss_script(Some(script.clone()));
+        rep.checks += 1;
+        let rising = guarded(|| {
+            let mut net2 = nets::build(&arch2);
+            let mut zero = || 0.0f32;
+            nets::randomize(&mut net2, &arch2, &mut zero);
+            let (xr, yr) = (refs(&xs), refs(&ys));
+            net2.learn(&xr, &yr, Some((&xr, &yr, tol as i32)), 1, e as i32, None)
+        });
+        verif::set_val_loss_script(None);
+        match rising {
+            Err(msg) => rep.mismatch("C13", "learn_panicked", &id, json!({"panic": msg, "network": "rising accuracy"}), case),
+            Ok((train, _, acc)) => {
+                if acc.windows(2).all(|w| w[0] < w[1]) && acc.len() >= 2 {
+                    rep.count("earlystop_runs_with_strictly_rising_accuracy", 1);
+                }
+                if train.len() != ran {
+                    rep.mismatch("C13", if train.len() < ran { "stopped_too_early" } else { "stopped_too_late" }, &id,
+                                 json!({"expected_epochs": ran, "train": train.len(), "accuracy": acc, "network": "rising accuracy", "embedding": embedding,
+                                        "trajectory": script.iter().map(|v| format!("{}", v)).collect::<Vec<_>>()}), case);
+                }
+            }
+        }
+    }
     match out {
         Err(msg) => rep.mismatch("C13", "learn_panicked", &id, json!({"panic": msg}), case),
         Ok((train, val, acc)) => {
